@@ -124,6 +124,7 @@ class Smt:
         self.bits_of_fp = {}
         self._keep = []
         self.pc = []
+        self.fmod_apps = []
 
     def end_path(self):
         self.s.pop()
@@ -146,6 +147,7 @@ class Smt:
             except Exception:
                 pass
         r = self.s.check(*extra)
+        self.last_sat = (r == z3.sat)
         self.stats.solver_s += time.time() - t
         if r == z3.sat:
             self.stats.sat += 1
